@@ -376,6 +376,15 @@ def f_otherlanguage(rng, W, ctx):
                 needs=['babel'])
 
 
+def f_gen_macro_end(rng, W, ctx):
+    """A user macro without arguments that generates a word, used as the very
+    last token of the fragment (no punctuation, no newline after it)."""
+    a, g = W.words(2), W.words(1, ascii_only=True)
+    name = 'gme' + ''.join(rng.choice('abcdefgh') for _ in range(4))
+    s = '\\newcommand{\\%s}{%s}\n%s %s \\%s' % (name, g[0], a[0], a[1], name)
+    return frag('gen_macro_end', s, a, g=g, defines=['\\' + name])
+
+
 def f_foreign_repeat(rng, W, ctx):
     """The same foreign phrase twice: two byte-identical parts of one
     language.  Its words occur twice in the source ('rep': 2); the k-th
@@ -476,6 +485,10 @@ def literal_words(frags):
         for lang, ws in f.get('foreign', []):
             out += ws
     return out
+
+
+def generated_words(frags):
+    return [w for f in frags for w in f['g']]
 
 
 def hidden_words(frags):
